@@ -50,7 +50,7 @@ func gen(idx int) scase {
 	r := mon.NewRng(mon.Seed(), 6, uint64(idx))
 	c := scase{Index: idx, Script: scripts[idx%len(scripts)]}
 	c.Dispatchers = r.Range(1, 4)
-	c.Lines = mon.N(12000, 40000)
+	c.Lines = mon.N(12000, 30000)
 	c.LineLen = r.PickInt([]int{100, 300, 1000})
 	c.ConnBuf = r.PickInt([]int{10, 100, 1000})
 	c.IoBuf = r.PickInt([]int{512, 4096, 65536})
@@ -617,7 +617,7 @@ func main() {
 	res.Rule = "endpoint scripts {absent, refuse-then-appear, blackhole(+then read), throttled slow/fast, healthy (+tiny buffers, +8 dispatchers), abortive/graceful close early/late, appear-then-abort} x generated connbuf/iobuf/flush/line length/dispatcher count; every Table.Dispatch call is timed by the stall detector; conservation identities at the steady states; non-trivial = the case ran to the end with its monitors active; distinct = (script, connbuf, iobuf, dispatchers)"
 	res.Assume("'never stalls' is restated as: each of the N hand-offs returned within the stall bound (2s quick / 5s thorough, normal < 1ms), confirmed by two stack samples of a parked goroutine; anything else long is inconclusive")
 	res.Assume("identities are asserted only in steady states (connection up throughout a phase / endpoint absent throughout a phase), never across a transition")
-	n := mon.N(14, 14*40)
+	n := mon.N(14, 14*14)
 	var wg sync.WaitGroup
 	sem := make(chan struct{}, 3)
 	ran := 0
